@@ -34,6 +34,9 @@ type c01Exp struct {
 	// closedEarly: a provider Shutdown returned nil while another provider Shutdown was still in
 	// progress (TracerProvider.Shutdown's "already shutting down" fast path: recorded finding)
 	closedEarly bool
+	// closedRepeat: a Shutdown returned nil after an EARLIER Shutdown had been cut short by its context
+	// and was still draining (recorded finding "repeated Shutdown while an earlier Shutdown had not completed")
+	closedRepeat bool
 	lastErr   []string
 }
 
@@ -48,6 +51,8 @@ func (e *c01Exp) ExportSpans(ctx context.Context, spans []ReadOnlySpan) error {
 	}
 	if e.closedOK {
 		x.Fail("C01|export-after-shutdown", "ExportSpans called after Shutdown had returned nil")
+	} else if e.closedRepeat {
+		x.Fail("C01|export-after-shutdown|after a repeated Shutdown that returned nil while an earlier Shutdown, cut short by its context, had not completed", "ExportSpans called after the second Shutdown had returned nil (the first one, cut short by its context, was still draining)")
 	} else if e.closedEarly {
 		x.Fail("C01|export-after-shutdown|after a provider Shutdown that returned while another provider Shutdown was still in progress", "ExportSpans called after a TracerProvider.Shutdown had returned nil (another Shutdown call was still draining)")
 	}
@@ -79,6 +84,13 @@ func (e *c01Exp) ExportSpans(ctx context.Context, spans []ReadOnlySpan) error {
 			err = ctx.Err()
 		}
 	}
+	// the slice belongs to this call until it returns: what it holds now is what it held on entry
+	for i, sp := range spans {
+		if i >= len(ids) || sp == nil || sp.Name() != ids[i] {
+			x.Fail("C01|export-batch-changed-during-export", "the slice handed to ExportSpans changed while the call was running: on entry %v, position %d differs now", ids, i)
+			break
+		}
+	}
 	e.inflight--
 	for _, n := range ids {
 		e.returned[n] = true
@@ -87,6 +99,9 @@ func (e *c01Exp) ExportSpans(ctx context.Context, spans []ReadOnlySpan) error {
 }
 
 func (e *c01Exp) Shutdown(context.Context) error {
+	if e.inflight > 0 {
+		e.x.Fail("C01|exporter-shutdown-during-export", "the exporter's Shutdown was called while an ExportSpans call was still running")
+	}
 	e.shutdowns++ // shutdown counts are judged by C15
 	return nil
 }
@@ -259,11 +274,15 @@ func c01Body(cfg c01Cfg, sc c01Scn, res *string) func(x *sched.Exec) {
 				shutdownCalls++
 				err := bsp.Shutdown(context.Background())
 				checkFlush("Shutdown", at, err)
+				if err == nil {
+					if shutdownFailedBefore {
+						e.closedRepeat = true
+					} else {
+						e.closedOK = true
+					}
+				}
 				if err != nil {
 					shutdownFailedBefore = true
-				}
-				if err == nil {
-					e.closedOK = true
 				}
 			case op == "Sc":
 				ctx, cancel := vctx.WithCancel(context.Background())
@@ -275,11 +294,15 @@ func c01Body(cfg c01Cfg, sc c01Scn, res *string) func(x *sched.Exec) {
 				shutdownCalls++
 				err := bsp.Shutdown(ctx)
 				checkFlush("Shutdown", at, err)
+				if err == nil {
+					if shutdownFailedBefore {
+						e.closedRepeat = true
+					} else {
+						e.closedOK = true
+					}
+				}
 				if err != nil {
 					shutdownFailedBefore = true
-				}
-				if err == nil {
-					e.closedOK = true
 				}
 			}
 		}
@@ -296,6 +319,12 @@ func c01Body(cfg c01Cfg, sc c01Scn, res *string) func(x *sched.Exec) {
 		wg.Wait()
 		for _, op := range sc.tail {
 			runOp(op)
+		}
+		// what the library's own goroutines (worker, helpers of ForceFlush / Shutdown) still do once
+		// the callers are done: let them run until they have nothing left -- an export that follows a
+		// Shutdown which returned nil is caught by the exporter's monitor
+		for k := 0; k < 8; k++ {
+			sched.SpinYield()
 		}
 		var keys []string
 		for _, b := range e.batches {
